@@ -54,6 +54,59 @@ func keyPool(r *sim.Rand, n int) []string {
 	return out
 }
 
+// twinPool: keys = prefixes x tails (2-3 prefixes of one nibble length, 2-3 tails): with values that depend on the
+// tail only, whole subtrees at different positions are byte-identical (stored nodes are addressed by content alone).
+func twinPool(r *sim.Rand) (keys []string, tailOf []int) {
+	d := []int{1, 1, 2, 2, 3, 4, 8, 20, 62}[r.Intn(9)]
+	nib := func(n int) []byte {
+		b := make([]byte, n)
+		for i := range b {
+			b[i] = "0123456789abcdef"[r.Intn(16)]
+		}
+		return b
+	}
+	var pre, tails [][]byte
+	for len(pre) < 2+r.Intn(2) {
+		p := nib(d)
+		if len(pre) > 0 && r.Chance(1, 2) { // differ from an earlier prefix in the last nibble only
+			p = append([]byte{}, pre[0]...)
+			p[d-1] = "0123456789abcdef"[r.Intn(16)]
+		}
+		dup := false
+		for _, q := range pre {
+			dup = dup || bytes.Equal(p, q)
+		}
+		if !dup {
+			pre = append(pre, p)
+		}
+	}
+	for len(tails) < 2+r.Intn(2) {
+		t := nib(64 - d)
+		if len(tails) > 0 && r.Chance(2, 3) { // tails share a prefix of their own
+			k := r.Intn(len(t))
+			copy(t, tails[0][:k])
+		}
+		dup := false
+		for _, q := range tails {
+			dup = dup || bytes.Equal(t, q)
+		}
+		if !dup {
+			tails = append(tails, t)
+		}
+	}
+	for _, p := range pre {
+		for ti, t := range tails {
+			keys = append(keys, string(p)+string(t))
+			tailOf = append(tailOf, ti)
+		}
+	}
+	if r.Chance(1, 2) {
+		keys = append(keys, string(nib(64)))
+		tailOf = append(tailOf, len(tails))
+	}
+	return
+}
+
 func genVal(r *sim.Rand, n int, small bool) []byte {
 	if small {
 		return []byte{"abc"[r.Intn(3)]}
@@ -111,6 +164,20 @@ func Gen(prop string, r *sim.Rand, tier string) sim.Script {
 				s.Ops = append(s.Ops, WOp{K: "mupd", I: r.Intn(nKeys), V: []byte(fmt.Sprintf("z%d", j))})
 			}
 		}
+		return s
+	}
+	if prop == "C13" && r.Chance(1, 1000) {
+		// a commit steered to an exact number of new storage keys (batch boundaries), then rolled back
+		s.Store = "simkv"
+		s.Keys = keyPool(r, 1+r.Intn(3))
+		for i := range s.Keys {
+			s.Ops = append(s.Ops, WOp{K: "upd", I: i, V: genVal(r, i, false)})
+		}
+		s.Ops = append(s.Ops, WOp{K: "commit", N: r.Intn(5), Sync: true})
+		if r.Chance(1, 2) {
+			s.Ops = append(s.Ops, WOp{K: "gc"})
+		}
+		s.Ops = append(s.Ops, WOp{K: "steer", N: []int{128, 256, 256, 256, 512, 512, 1000, 1024, 1024, 2048}[r.Intn(10)], B: r.Intn(1 << 30), A: r.Intn(2), I: r.Intn(5)})
 		return s
 	}
 	if prop == "C13" && r.Chance(1, 2) {
@@ -198,6 +265,12 @@ func Gen(prop string, r *sim.Rand, tier string) sim.Script {
 	if prop == "C12" || prop == "C10" {
 		small = false // unique values: a foreign value is attributable, and no stored node is shared (see the GC known finding)
 	}
+	// twin subtrees: a product key pool whose values depend on the key's tail (1 in 8 runs of C09, C11, C13)
+	var tailOf []int
+	if !bulk && (prop == "C09" || prop == "C11" || prop == "C13") && r.Chance(1, 8) {
+		s.Keys, tailOf = twinPool(r)
+		nKeys = len(s.Keys)
+	}
 	n := 0
 	wUpd, wDel, wReadd, wRoot, wCommit, wGC, wReload, wCrash, wSave, wRollback := 40, 18, 8, 5, 12, 8, 4, 0, 0, 0
 	switch prop {
@@ -238,7 +311,11 @@ func Gen(prop string, r *sim.Rand, tier string) sim.Script {
 		switch k {
 		case 0:
 			n++
-			s.Ops = append(s.Ops, WOp{K: "upd", I: ki, V: genVal(r, n, small), N: r.Intn(8)})
+			v := genVal(r, n, small)
+			if tailOf != nil && r.Chance(5, 6) {
+				v = []byte{"abcdefg"[tailOf[ki]], "xy"[r.Intn(8)/7]} // a function of the tail, rarely a second version
+			}
+			s.Ops = append(s.Ops, WOp{K: "upd", I: ki, V: v, N: r.Intn(8)})
 		case 1:
 			s.Ops = append(s.Ops, WOp{K: "del", I: ki, N: r.Intn(2)})
 		case 2:
